@@ -22,15 +22,15 @@ Local Open Scope Z_scope.
 
 (* ---- memory safety and totality, unconditional: whatever the map (sorted or not, equal
    times or not, at capacity or not) and the query, the bisection reads only valid indices and
-   terminates, and a conversion never yields OOB_read, FP_invalid or Nonterm; the only
-   remaining fault is int64 overflow (C undefined behaviour for astronomically distant queries) ---- *)
+   terminates, and a conversion never yields Tm_OOB_read, Tm_FP_invalid or Tm_Nonterm; the only
+   remaining tm_fault is int64 overflow (C undefined behaviour for astronomically distant queries) ---- *)
 Theorem C12_tmap_search_total : forall (xs : list Z) (x0 : Z), (1 <= length xs)%nat ->
-  exists c, search xs x0 = Ok c /\ (c < length xs)%nat /\ (2 <= length xs -> c + 2 <= length xs)%nat.
+  exists c, search xs x0 = TmOk c /\ (c < length xs)%nat /\ (2 <= length xs -> c + 2 <= length xs)%nat.
 Proof. exact search_total. Qed.
 Print Assumptions C12_tmap_search_total.
 
-Theorem C12_tmap_total : forall (t : tmap) (q : Z) (f : fault),
-  tmap_sample_id_to_timestamp t q = QFault f \/ tmap_timestamp_to_sample_id t q = QFault f -> f = Int_overflow.
+Theorem C12_tmap_total : forall (t : tmap) (q : Z) (f : tm_fault),
+  tmap_sample_id_to_timestamp t q = QFault f \/ tmap_timestamp_to_sample_id t q = QFault f -> f = Tm_Int_overflow.
 Proof. exact tmap_total. Qed.
 Print Assumptions C12_tmap_total.
 
@@ -77,7 +77,7 @@ Proof. exact tmap_monotone_rev. Qed.
 Print Assumptions C12_tmap_monotone_time_to_id.
 
 (* ---- between neighbouring pairs: the rounded linear interpolation, within 1/2 tick of the
-   exact rational value, never outside the two anchor times; no fault ---- *)
+   exact rational value, never outside the two anchor times; no tm_fault ---- *)
 Theorem C12_tmap_interp_linear : forall (t : tmap) (i : nat) (q : Z),
   (forall i k, (i < k < length (ids t))%nat -> nth i (ids t) 0 < nth k (ids t) 0) ->
   (forall i k, (i <= k < length (times t))%nat -> nth i (times t) 0 <= nth k (times t) 0) ->
@@ -168,7 +168,7 @@ Proof. exact ex_map_ok. Qed.
 Print Assumptions C12_tmap_example_hypotheses.
 
 (* concrete values of the current code: the example map; a single entry; two anchors with the
-   same UTC time (the first anchor's id, no fault) *)
+   same UTC time (the first anchor's id, no tm_fault) *)
 Example C12_tmap_example_values :
   let t := tmap_add_all (tmap_alloc (1000 # 1)) [(0, 2 ^ 58); (1000, 2 ^ 58 + 2 ^ 30); (2500, 2 ^ 58 + 5 * 2 ^ 29 + 7)] in
   let t1 := tmap_add_all (tmap_alloc (1000 # 1)) [(5000, 2 ^ 58)] in
@@ -184,7 +184,7 @@ Proof. exact ex_map_values. Qed.
 Print Assumptions C12_tmap_example_values.
 
 (* the map holding exactly ENTRIES_ALLOC_INIT = 1000 entries, queried beyond its last anchor in
-   both directions: a value, no fault (the old code read outside the heap object here) *)
+   both directions: a value, no tm_fault (the old code read outside the heap object here) *)
 Example C12_tmap_example_at_capacity :
   exists t : tmap,
     t = tmap_add_all (tmap_alloc (1000 # 1))
@@ -214,15 +214,15 @@ Theorem C12_tmap_old_oob_refuted :
     (forall i k, (i < k < length (ids t))%nat -> nth i (ids t) 0 < nth k (ids t) 0) /\
     (forall i k, (i < k < length (times t))%nat -> nth i (times t) 0 < nth k (times t) 0) /\
     length (entries t) = N.to_nat TMAP_ENTRIES_ALLOC_INIT /\
-    forall junk, tmap_sample_id_to_timestamp_old junk t q = QFault OOB_read /\
-                 tmap_timestamp_to_sample_id_old junk t (2 ^ 58 + 1000 * 2 ^ 30) = QFault OOB_read.
+    forall junk, tmap_sample_id_to_timestamp_old junk t q = QFault Tm_OOB_read /\
+                 tmap_timestamp_to_sample_id_old junk t (2 ^ 58 + 1000 * 2 ^ 30) = QFault Tm_OOB_read.
 Proof. exact tmap_old_oob_refuted. Qed.
 Print Assumptions C12_tmap_old_oob_refuted.
 
 Theorem C12_tmap_old_oob_iff : forall (junk : Z) (t : tmap) (q : Z),
   (forall i k, (i < k < length (ids t))%nat -> nth i (ids t) 0 < nth k (ids t) 0) ->
   (2 <= length (entries t))%nat -> (phys t <= length (entries t))%nat ->
-  (tmap_sample_id_to_timestamp_old junk t q = QFault OOB_read <-> nth (length (entries t) - 1) (ids t) 0 < q).
+  (tmap_sample_id_to_timestamp_old junk t q = QFault Tm_OOB_read <-> nth (length (entries t) - 1) (ids t) 0 < q).
 Proof. exact tmap_old_oob_iff. Qed.
 Print Assumptions C12_tmap_old_oob_iff.
 
@@ -243,7 +243,7 @@ Theorem C12_tmap_old_equal_times_refuted :
     (length (entries t) < phys t)%nat /\
     In (s, u) (entries t) /\
     tmap_sample_id_to_timestamp_old 0 t s = QVal u /\
-    tmap_timestamp_to_sample_id_old 0 t u = QFault FP_invalid.
+    tmap_timestamp_to_sample_id_old 0 t u = QFault Tm_FP_invalid.
 Proof. exact tmap_old_equal_times_refuted. Qed.
 Print Assumptions C12_tmap_old_equal_times_refuted.
 
